@@ -797,3 +797,81 @@ func c18Generate(seed int64, idx int, off map[string]bool) c18Program {
 	_ = bufs
 	return c18Program{Name: fmt.Sprintf("gen%d-%s", idx, stage), Src: g.sb.String(), Stage: stage}
 }
+
+// ---- the size dimension ---------------------------------------------------------------------------------------------
+//
+// c18GenerateBig builds a compute or vertex program of about nstmt statements, straight-line or with its statements
+// grouped in bounded `for` loops with nested `if`s.  About 130 bytes of bitcode per statement: 50 / 300 / 800 / 1600
+// statements give roughly 8 / 40 / 110 / 210 KiB of bitcode, so the writer's output buffer is reallocated many times
+// while MODULE_BLOCK, FUNCTION_BLOCK, METADATA and the symbol table are open.  Only constructs that are clean on the
+// pinned tree are used (no private variables, matrix variables or short-circuit operators), so the family is strict.
+func c18GenerateBig(seed int64, idx, nstmt int, looped bool, stage string) c18Program {
+	r := rand.New(rand.NewSource(seed*7919 + int64(idx)*104729 + int64(nstmt)))
+	var sb strings.Builder
+	sb.WriteString("struct P { a: vec4<f32>, k: u32 }\n@group(0) @binding(0) var<uniform> p: P;\n@group(0) @binding(1) var<storage, read> src: array<f32>;\n")
+	if stage == "compute" {
+		sb.WriteString("@group(0) @binding(2) var<storage, read_write> dst: array<f32>;\n")
+		sb.WriteString("@compute @workgroup_size(64) fn cmain(@builtin(global_invocation_id) gid: vec3<u32>) {\n  let i: u32 = gid.x;\n")
+	} else {
+		sb.WriteString("struct VOut { @builtin(position) pos: vec4<f32>, @location(0) c: vec4<f32> }\n")
+		sb.WriteString("@vertex fn vmain(@builtin(vertex_index) vi: u32, @location(0) pin: vec3<f32>) -> VOut {\n  let i: u32 = vi;\n")
+	}
+	sb.WriteString("  var acc: f32 = src[i];\n  var v: vec4<f32> = p.a;\n  var n: u32 = p.k;\n")
+	if stage != "compute" {
+		sb.WriteString("  acc = acc + pin.x * pin.y - pin.z;\n")
+	}
+	ind := "  "
+	idxExpr := "i"
+	one := func(s int) {
+		switch r.Intn(8) {
+		case 0, 1:
+			fmt.Fprintf(&sb, "%sacc = acc * src[%s + %du] + %d.5;\n", ind, idxExpr, s, s%97)
+		case 2:
+			fmt.Fprintf(&sb, "%sif (acc > %d.0) { acc = acc - p.a.x; }\n", ind, s%211)
+		case 3:
+			fmt.Fprintf(&sb, "%sv = v * acc + vec4<f32>(%d.0, 1.0, 2.0, 3.0);\n", ind, s%53)
+		case 4:
+			fmt.Fprintf(&sb, "%slet t%d: f32 = sin(acc) + v.y;\n%sacc = acc + t%d * 0.5;\n", ind, s, ind, s)
+		case 5:
+			fmt.Fprintf(&sb, "%sn = (n * 3u + %du) & 1023u;\n", ind, s)
+		case 6:
+			fmt.Fprintf(&sb, "%sif (n > %du) { v.x = acc; } else { v.y = f32(n); }\n", ind, s%1024)
+		default:
+			fmt.Fprintf(&sb, "%sacc = select(acc, v.z + src[%s + %du], n == %du);\n", ind, idxExpr, s%64, s%1024)
+		}
+	}
+	s := 0
+	for s < nstmt {
+		if looped && r.Intn(3) != 0 {
+			k := 6 + r.Intn(14)
+			fmt.Fprintf(&sb, "  for (var j%d: u32 = 0u; j%d < %du; j%d++) {\n", s, s, 2+r.Intn(3), s)
+			ind, idxExpr = "    ", fmt.Sprintf("i + j%d", s)
+			loopVar := s
+			for q := 0; q < k && s < nstmt; q++ {
+				s++
+				one(s)
+				if q == k/2 {
+					fmt.Fprintf(&sb, "    if (acc < -%d.0) { %s; }\n", 1000+s, []string{"break", "continue"}[r.Intn(2)])
+					s++
+				}
+			}
+			_ = loopVar
+			sb.WriteString("  }\n")
+			ind, idxExpr = "  ", "i"
+			s++
+			continue
+		}
+		s++
+		one(s)
+	}
+	if stage == "compute" {
+		sb.WriteString("  dst[i] = acc + v.x + v.y + f32(n);\n}\n")
+	} else {
+		sb.WriteString("  var out: VOut;\n  out.pos = vec4<f32>(acc, v.x, 0.0, 1.0);\n  out.c = v + vec4<f32>(f32(n));\n  return out;\n}\n")
+	}
+	shape := "straight"
+	if looped {
+		shape = "looped"
+	}
+	return c18Program{Name: fmt.Sprintf("big%d-%s-%s-%d", idx, stage, shape, nstmt), Src: sb.String(), Stage: stage}
+}
